@@ -93,7 +93,7 @@ Section LoopOkb.
       match m_kind d with
       | KDel =>
         match nthZ oi1 oc with
-        | Some oe => ozeqb (find_sig (calcAddr oe oi1) (cur_sigs oc nc oi1 ni1)) ni1 && loop_okb s' (oi1 + 1) ni1 last1
+        | Some oe => ozeqb (find_sig (keep_addr nc oe ni1) (cur_sigs oc nc oi1 ni1)) ni1 && loop_okb s' (oi1 + 1) ni1 last1
         | None => false
         end
       | KIns =>
